@@ -355,6 +355,34 @@ func runRateRT(c *Case) string {
 		emitEnd(dest, ctx, end)
 	}
 	obs := rlnative.NewRateLimiter[rlItem](int64(n), time.Duration(w)*time.Microsecond, rlKey)(src.observable())
+	// a ticker like the limiter's own, observed by the harness: how far the distance between two
+	// consecutive deliveries strayed from w during this run (jit=, µs) measures how much shorter than
+	// w the limiter's real windows may have been; the check may grant 2*jit of slack to the bound
+	monStop := make(chan struct{})
+	monDone := make(chan int64, 1)
+	go func() {
+		tk := time.NewTicker(time.Duration(w) * time.Microsecond)
+		defer tk.Stop()
+		var worst int64
+		last := time.Since(rec.start).Microseconds()
+		for {
+			select {
+			case <-tk.C:
+				now := time.Since(rec.start).Microseconds()
+				d := now - last - int64(w)
+				if d < 0 {
+					d = -d
+				}
+				if d > worst {
+					worst = d
+				}
+				last = now
+			case <-monStop:
+				monDone <- worst
+				return
+			}
+		}
+	}()
 	sub := obs.Subscribe(rec.observer())
 	if !src.sync {
 		go src.playNow()
@@ -376,6 +404,8 @@ func runRateRT(c *Case) string {
 		time.Sleep(time.Duration(w/2) * time.Microsecond)
 	}
 	sub.Unsubscribe()
+	close(monStop)
+	c.set("jit", strconv.FormatInt(<-monDone, 10))
 	rec.mu.Lock()
 	obsParts := make([]string, len(rec.out))
 	for i := range rec.out {
